@@ -72,7 +72,7 @@ def price_path(rng, T, kind="walk"):
     return out
 
 
-GEN_KEYS = ("nops", "capital", "p_defer", "p_redundant", "allow_illformed", "fund_subs", "p_unsettled", "p_flow", "p_custom", "same_sec", "leverage", "daytrade", "zero_outlay")
+GEN_KEYS = ("nops", "capital", "p_defer", "p_redundant", "allow_illformed", "fund_subs", "p_unsettled", "p_flow", "p_custom", "same_sec", "leverage", "daytrade", "zero_outlay", "reopen")
 
 
 def make_C(rng, tree=None, T=4, comm=None, spread=None, integer=True, mults=(1, 1, 1, 2, 5), late=False, D=50000, crash=False, bidoffer=None, delist=False, zerodip=False, penny=False):
@@ -186,8 +186,9 @@ WEIGHTS = [Fraction(0), Fraction(1, 4), Fraction(1, 2), Fraction(1), Fraction(-1
 class HistoryGen:
     """Online generator of operation histories for one configuration."""
 
-    def __init__(self, rng, C, nops=10, capital=None, p_defer=0.15, p_redundant=0.15, allow_illformed=False, fund_subs=True, p_unsettled=0.0, p_flow=0.23, p_custom=0.0, same_sec=False, leverage=False, daytrade=0.0, zero_outlay=0.0):
+    def __init__(self, rng, C, nops=10, capital=None, p_defer=0.15, p_redundant=0.15, allow_illformed=False, fund_subs=True, p_unsettled=0.0, p_flow=0.23, p_custom=0.0, same_sec=False, leverage=False, daytrade=0.0, zero_outlay=0.0, reopen=0.0):
         self.rng = rng
+        self.reopen = reopen
         self.daytrade = daytrade
         self.zero_outlay = zero_outlay
         self.C = C
@@ -340,6 +341,19 @@ class HistoryGen:
             if not self.subtree_usable(s_):
                 return None
             return {"op": "transact", "node": s_, "a": [rng.choice([10, 50, -20, 100]), 1], "b": NAN, "upd": upd}
+        if upd and self.reopen and rng.random() < self.reopen:
+            # close a holding, let the tree be refreshed more than once, trade it again
+            held = [x for x in self.secs if self.usable(x) and last and last["pos"][x - 1] != 0]
+            paying = [x for x in held if C["bidoffer"] and C["spread"][x - 1][self.t - 1][0] != 0]
+            if held:
+                x = rng.choice(paying or held)
+                others = [y for y in self.secs if y != x and self.usable(y)]
+                y = rng.choice(others) if (others and rng.random() < 0.7) else x   # then trade something (else)
+                # (histories differ in whether the refreshes in between are there: C08)
+                mid = [] if rng.random() < 0.5 else [{"op": "update", "date": self.t}, rng.choice([{"op": "update", "date": self.t}, {"op": "read", "node": 1, "prop": "value"}])]
+                tail = mid + [{"op": "allocate", "node": y, "a": self.amount(last), "upd": True}, {"op": "update", "date": self.t}]
+                self.queue[0:0] = tail
+                return {"op": "close", "node": C["par"][x - 1], "child": x, "upd": True}
         if upd and self.daytrade and rng.random() < self.daytrade:
             # a round trip in one security within the date, no refresh between the legs
             xs = [x for x in self.secs if self.usable(x)]
